@@ -20,3 +20,20 @@ func VerifReadLenEncInt(data []byte, pos int) (uint64, int, bool) {
 func VerifMetadataRead(data []byte, pos int, typ byte) (uint16, int, error) {
 	return metadataRead(data, pos, typ)
 }
+// VerifParseMysql56GTID exposes parseMysql56GTID.
+func VerifParseMysql56GTID(s string) (GTID, error) { return parseMysql56GTID(s) }
+
+// VerifParseMysql56GTIDSet exposes parseMysql56GTIDSet.
+func VerifParseMysql56GTIDSet(s string) (GTIDSet, error) { return parseMysql56GTIDSet(s) }
+
+// VerifParseMariadbGTID exposes parseMariadbGTID.
+func VerifParseMariadbGTID(s string) (GTID, error) { return parseMariadbGTID(s) }
+
+// VerifParseMariadbGTIDSet exposes parseMariadbGTIDSet.
+func VerifParseMariadbGTIDSet(s string) (GTIDSet, error) { return parseMariadbGTIDSet(s) }
+
+// VerifParseInterval exposes parseInterval as (start, end).
+func VerifParseInterval(s string) (int64, int64, error) {
+	iv, err := parseInterval(s)
+	return iv.start, iv.end, err
+}
